@@ -496,15 +496,22 @@ extern int total_queries;
     cif_value_tp *_value = (_val); \
     int _col_ofs = (_ofs); \
     const void *_blob; \
+    int _props_result; \
     _value->kind = (cif_kind_tp) sqlite3_column_int(_stmt, _col_ofs); \
     switch (_value->kind) { \
         case CIF_CHAR_KIND: \
             _value->as_char.quoted = (sqlite3_column_int(_stmt, _col_ofs + 1) ? CIF_QUOTED : CIF_NOT_QUOTED); \
+            /* whatever is not (yet) loaded must be safe to clean up */ \
+            _value->as_char.text = NULL; \
             GET_COLUMN_STRING(_stmt, _col_ofs + 3, _value->as_char.text, HANDLER_LABEL(errlabel)); \
             if (_value->as_char.text != NULL) break; \
             FAIL(errlabel, CIF_INTERNAL_ERROR); \
         case CIF_NUMB_KIND: \
             _value->as_numb.quoted = (sqlite3_column_int(_stmt, _col_ofs + 1) ? CIF_QUOTED : CIF_NOT_QUOTED); \
+            /* whatever is not (yet) loaded must be safe to clean up */ \
+            _value->as_numb.text = NULL; \
+            _value->as_numb.digits = NULL; \
+            _value->as_numb.su_digits = NULL; \
             GET_COLUMN_STRING(_stmt, _col_ofs + 3, _value->as_numb.text, HANDLER_LABEL(errlabel)); \
             GET_COLUMN_BYTESTRING(_stmt, _col_ofs + 4, _value->as_numb.digits, HANDLER_LABEL(errlabel)); \
             if ((_value->as_numb.text != NULL) && (*(_value->as_numb.text) != 0) && (_value->as_numb.digits != NULL) \
@@ -518,11 +525,14 @@ extern int total_queries;
         case CIF_LIST_KIND: \
         case CIF_TABLE_KIND: \
             _blob = (const void *) sqlite3_column_blob(_stmt, _col_ofs + 2); \
-            if ((_blob != NULL) && (cif_value_deserialize( \
-                    _blob, (size_t) sqlite3_column_bytes(_stmt, _col_ofs + 2), _value) == CIF_OK)) { \
+            /* nothing has been loaded yet: until deserialization succeeds the value holds no resources */ \
+            _value->kind = CIF_UNK_KIND; \
+            _props_result = ((_blob == NULL) ? CIF_INTERNAL_ERROR : cif_value_deserialize( \
+                    _blob, (size_t) sqlite3_column_bytes(_stmt, _col_ofs + 2), _value)); \
+            if (_props_result == CIF_OK) { \
                 break; \
             } \
-            FAIL(errlabel, CIF_INTERNAL_ERROR); \
+            FAIL(errlabel, _props_result); \
         case CIF_UNK_KIND: \
         case CIF_NA_KIND: \
             break; \
